@@ -1,5 +1,5 @@
 SPECIFICATION Spec
 CONSTANTS
-  Part = "rules"
+  Part = "small"
   Variant = "block_beats_allow"
 INVARIANTS AllowBeatsBlock
